@@ -87,6 +87,9 @@ def sanitize_index(ind):
         else:
             return np.asanyarray(nonzero)
     elif np.issubdtype(index_array.dtype, np.integer):
+        if index_array.ndim == 0:
+            # a 0-d integer array indexes like the integer it holds
+            return int(index_array)
         return index_array
     elif np.issubdtype(index_array.dtype, np.floating):
         int_index = index_array.astype(np.intp)
